@@ -9,6 +9,7 @@ import (
 	"math"
 	"net/http"
 	"net/http/httptest"
+	"net/url"
 	"runtime"
 	"strings"
 	"sync"
@@ -110,6 +111,7 @@ func run(c *hk.Ctx) {
 		}
 	}
 	stdioStress(c)
+	postSSEStress(c)
 	getStreamStress(c)
 	resumeStress(c)
 	legacySSEStress(c)
@@ -462,6 +464,31 @@ func legacySSEStress(c *hk.Ctx) {
 	var wg sync.WaitGroup
 	accepted := 0
 	var mu sync.Mutex
+	// bursts of server notifications to the session, back to back (several are queued when the stream writer wakes up)
+	sessionID := ""
+	if u, err := url.Parse(endpoint); err == nil {
+		sessionID = u.Query().Get("sessionId")
+	}
+	notified := 0
+	if sessionID != "" {
+		f.Do("POST", endpoint, map[string]string{"Content-Type": "application/json"}, []byte(`{"jsonrpc":"2.0","id":0,"method":"initialize","params":{"protocolVersion":"2024-11-05","capabilities":{},"clientInfo":{"name":"v","version":"1"}}}`))
+		f.Do("POST", endpoint, map[string]string{"Content-Type": "application/json"}, []byte(`{"jsonrpc":"2.0","method":"notifications/initialized"}`))
+		st.WaitEvents(2, 3*time.Second)
+		wg.Add(1)
+		go func() {
+			defer wg.Done()
+			for b := 0; b < 6; b++ {
+				for i := 0; i < 12; i++ {
+					if srv.SendNotification(sessionID, "notifications/message", map[string]interface{}{"level": "info", "data": map[string]interface{}{"burst": b, "i": i, "pad": strings.Repeat("n", (b*12+i)*29%900)}}) == nil {
+						mu.Lock()
+						notified++
+						mu.Unlock()
+					}
+				}
+				time.Sleep(2 * time.Millisecond)
+			}
+		}()
+	}
 	for i := 0; i < n; i++ {
 		wg.Add(1)
 		go func(i int) {
@@ -476,11 +503,143 @@ func legacySSEStress(c *hk.Ctx) {
 		}(i)
 	}
 	wg.Wait()
-	all := st.WaitEvents(1+accepted, 10*time.Second)
+	// wait until everything expected has arrived or the stream has been quiet for a while (the legacy SSE server drops
+	// answers when its 100-slot session queue is full: a matter for C01, not for framing)
+	target, stable, last := 1+accepted+notified, time.Now(), 0
+	for deadline := time.Now().Add(10 * time.Second); time.Now().Before(deadline); time.Sleep(20 * time.Millisecond) {
+		n := len(st.Snapshot())
+		if n != last {
+			last, stable = n, time.Now()
+		}
+		if n >= target || time.Since(stable) > 600*time.Millisecond {
+			break
+		}
+	}
+	all := st.Snapshot()
 	bad, first := parseEventsJSON(all[1:])
+	// every notification that was reported sent is one event of its own
+	if notified > 0 {
+		seen := 0
+		for _, e := range all[1:] {
+			if strings.Contains(e.Data, `"burst"`) && strings.Contains(e.Data, `"method":"notifications/message"`) {
+				var m map[string]any
+				if json.Unmarshal([]byte(e.Data), &m) == nil {
+					seen++
+				}
+			}
+		}
+		if seen != notified {
+			c.Violate(hk.Violation{Fingerprint: "frames:legacy-sse:notifications-not-one-event-each", What: "server notifications sent back to back to a legacy SSE session did not arrive as one parseable event each",
+				Input: map[string]any{"sent": notified}, Observed: map[string]any{"events_that_are_one_notification": seen}})
+		}
+	}
 	c.Count("legacy-sse", true, map[string]any{"kind": "legacy-sse-stress", "requests": n, "accepted": accepted, "events_read": len(all) - 1, "unparsable": bad}, "legacy-sse-stress")
 	if bad > 0 {
 		c.Violate(hk.Violation{Fingerprint: "frames:legacy-sse:interleaved-events", What: "events on the legacy SSE stream do not parse as single JSON messages",
 			Input: map[string]any{"requests": n}, Observed: map[string]any{"unparsable": bad, "first": first}})
+	}
+}
+
+// stallWriter is a ResponseWriter that records what is written and pauses inside every Write (longer at an event's
+// terminating blank line): a writer that is still inside a frame when another party writes shows up as a mixed frame.
+type stallWriter struct {
+	mu  sync.Mutex
+	hdr http.Header
+	buf bytes.Buffer
+	n   int
+}
+
+func (w *stallWriter) Header() http.Header { return w.hdr }
+func (w *stallWriter) WriteHeader(int)     {}
+func (w *stallWriter) Flush()              {}
+func (w *stallWriter) Write(p []byte) (int, error) {
+	w.mu.Lock()
+	w.buf.Write(p)
+	w.n++
+	w.mu.Unlock()
+	d := 150 * time.Microsecond
+	if bytes.HasSuffix(p, []byte("\n\n")) || string(p) == "\n" {
+		d = 2 * time.Millisecond
+	}
+	time.Sleep(d)
+	return len(p), nil
+}
+
+// postSSEStress: a POST answered as an SSE stream on which the tool handler sends notifications right up to its return
+// (so the answer is written immediately after the last notification), through a writer that stalls inside every write:
+// the stream must be exactly the notifications followed by the answer, each one event that parses on its own.
+func postSSEStress(c *hk.Ctx) {
+	for _, mode := range []string{"stateful", "stateless"} {
+		f := hk.NewFixture(hk.SrvCfg{Mode: mode, Get: false, PostSSE: true})
+		f.S.RegisterTool(mcp.NewTool("burst", mcp.WithNumber("k")), func(ctx context.Context, req *mcp.CallToolRequest) (*mcp.CallToolResult, error) {
+			k, _ := req.Params.Arguments["k"].(float64)
+			if sender, ok := mcp.GetNotificationSender(ctx); ok {
+				for i := 0; i < int(k); i++ {
+					switch i % 3 {
+					case 0:
+						sender.SendProgress(float64(i), fmt.Sprintf("step %d\nsecond line", i))
+					case 1:
+						sender.SendLogMessage("info", strings.Repeat("l", 10+i*37))
+					default:
+						sender.SendCustomNotification("notifications/verif", map[string]interface{}{"i": i, "pad": strings.Repeat("p", i*101%3000)})
+					}
+				}
+			}
+			return mcp.NewTextResult("burst done"), nil
+		})
+		h := f.S.Handler()
+		sid := ""
+		if mode == "stateful" {
+			r := f.Post(nil, `{"jsonrpc":"2.0","id":1,"method":"initialize","params":{"protocolVersion":"2025-03-26","capabilities":{},"clientInfo":{"name":"v","version":"1"}}}`)
+			if r.Header != nil {
+				sid = r.Header.Get("Mcp-Session-Id")
+			}
+		}
+		rounds := 30
+		if c.Thorough() {
+			rounds = 300
+		}
+		bad := 0
+		for i := 0; i < rounds && bad == 0; i++ {
+			k := 1 + i%6
+			body := fmt.Sprintf(`{"jsonrpc":"2.0","id":%d,"method":"tools/call","params":{"name":"burst","arguments":{"k":%d}}}`, 100+i, k)
+			req := httptest.NewRequest("POST", "/mcp", strings.NewReader(body))
+			req.Header.Set("Content-Type", "application/json")
+			req.Header.Set("Accept", "application/json, text/event-stream")
+			if sid != "" {
+				req.Header.Set("Mcp-Session-Id", sid)
+			}
+			w := &stallWriter{hdr: http.Header{}}
+			h.ServeHTTP(w, req)
+			time.Sleep(5 * time.Millisecond) // a writer that outlived the handler would still be writing now
+			w.mu.Lock()
+			stream := w.buf.String()
+			w.mu.Unlock()
+			evs := parseSSE(stream)
+			notes, answers, unparsable := 0, 0, 0
+			lastIsAnswer := false
+			for _, e := range evs {
+				var m map[string]any
+				if json.Unmarshal([]byte(e), &m) != nil {
+					unparsable++
+					continue
+				}
+				_, hasID := m["id"]
+				if hasID {
+					answers++
+				} else {
+					notes++
+				}
+				lastIsAnswer = hasID
+			}
+			good := unparsable == 0 && notes == k && answers == 1 && lastIsAnswer
+			c.Count("post-sse", true, map[string]any{"kind": "post-sse-stress", "mode": mode, "notifications": k}, "post-sse-stress")
+			if !good {
+				bad++
+				c.Violate(hk.Violation{Fingerprint: "frames:post-sse:notifications-and-answer-not-whole-frames", What: "a POST-SSE stream does not consist of the handler's notifications followed by the answer, each one event that parses on its own",
+					Input: map[string]any{"mode": mode, "notifications": k, "round": i}, Observed: map[string]any{"events": len(evs), "notifications": notes, "answers": answers, "unparsable": unparsable, "answer_last": lastIsAnswer}})
+			}
+		}
+		f.Close()
 	}
 }
